@@ -80,25 +80,40 @@ Proof.
   pose proof (ext_conn_check s) as H. destruct (conn_check s) as [s' r]. exact H.
 Qed.
 
-Lemma ext_wait_rpc : forall sc s c v u uc, ext s (fst (fst (fst (wait_rpc sc s c v u uc)))).
+Lemma ext_requeue s c v held : ext s (fst (requeue s c v held)).
+Proof. destruct held; cbn [requeue fst]; [apply ext_refl | apply ext_upd]. Qed.
+
+Lemma ext_wait_rpc : forall sc s c v u uc held, ext s (fst (fst (fst (wait_rpc sc s c v u uc held)))).
 Proof.
-  induction sc as [|t sc IH]; intros s c v u uc; cbn [wait_rpc].
-  - destruct (resp_get (c_resp (cur s c v)) u) as [[|f l]|]; cbn [fst]; try apply ext_refl;
-      pose proof (ext_adapter_check s c (cur s c v) uc) as H;
-      destruct (adapter_check s c (cur s c v) uc) as [[s1 v1] [x|e]]; cbn [fst] in *;
-      first [exact H | (eapply ext_trans; [exact H | apply ext_upd])].
-  - destruct (resp_get (c_resp (cur s c v)) u) as [[|f l]|]; cbn [fst]; try apply ext_refl;
-      pose proof (ext_adapter_check s c (cur s c v) uc) as H;
-      destruct (adapter_check s c (cur s c v) uc) as [[s1 v1] [x|e]]; cbn [fst] in *;
-      first [exact H
-            | (eapply ext_trans; [exact H|]; eapply ext_trans; [apply (ext_deliver_all t) | apply IH])].
+  induction sc as [|t sc IH]; intros s c v u uc held; cbn [wait_rpc].
+  - destruct (resp_get (c_resp (cur s c v)) u) as [[|f l]|].
+    2:{ destruct held; cbn [fst]; [apply ext_refl | apply ext_upd]. }
+    all: pose proof (ext_adapter_check s c (cur s c v) uc) as H;
+      destruct (adapter_check s c (cur s c v) uc) as [[s1 v1] [x|e]]; cbn [fst] in H.
+    all: try destruct (ekind_eqb (e_kind e) EMsg).
+    all: match goal with
+         | |- context [requeue ?a ?b ?d ?h] =>
+           pose proof (ext_requeue a b d h) as Hq; destruct (requeue a b d h) as [s3 v3]; cbn [fst] in *
+         end.
+    all: first [ eapply ext_trans; [exact H | exact Hq]
+               | eapply ext_trans; [exact H|]; eapply ext_trans; [apply ext_upd | exact Hq] ].
+  - destruct (resp_get (c_resp (cur s c v)) u) as [[|f l]|].
+    2:{ destruct held; cbn [fst]; [apply ext_refl | apply ext_upd]. }
+    all: pose proof (ext_adapter_check s c (cur s c v) uc) as H;
+      destruct (adapter_check s c (cur s c v) uc) as [[s1 v1] [x|e]]; cbn [fst] in H.
+    all: try destruct (ekind_eqb (e_kind e) EMsg).
+    all: try (eapply ext_trans; [exact H|]; eapply ext_trans; [apply (ext_deliver_all t) | apply IH]).
+    all: match goal with
+         | |- context [requeue ?a ?b ?d ?h] =>
+           pose proof (ext_requeue a b d h) as Hq; destruct (requeue a b d h) as [s3 v3]; cbn [fst] in *
+         end; eapply ext_trans; [exact H | exact Hq].
 Qed.
 
 Lemma ext_get_request sc s c v u m uc : ext s (fst (fst (fst (get_request sc s c v u m uc)))).
 Proof.
   unfold get_request. destruct (resp_get (c_resp (cur s c v)) u); [|apply ext_refl].
-  pose proof (ext_wait_rpc sc s c v u uc) as H.
-  destruct (wait_rpc sc s c v u uc) as [[[s1 v1] [x|e]] sc1]; cbn [fst] in *; [|exact H].
+  pose proof (ext_wait_rpc sc s c v u uc []) as H.
+  destruct (wait_rpc sc s c v u uc []) as [[[s1 v1] [x|e]] sc1]; cbn [fst] in *; [|exact H].
   destruct (resp_get (c_resp v1) u) as [[|f fl]|]; cbn [fst]; try exact H.
 Qed.
 
